@@ -873,6 +873,22 @@ class Expander:
                 return node
 
             def visit_Call(self, node):
+                # list(gen(...)) with gen an unlisted simple generator, evaluated before anything else of the statement:
+                #   tmp = [v for v in gen(...)]   (which is then taken apart like any comprehension over such a generator)
+                if isinstance(node.func, ast.Name) and node.func.id == "list" and len(node.args) == 1 and not node.keywords and isinstance(node.args[0], ast.Call) \
+                        and self.guarded == 0 and first_effect[0] is node.args[0] and not field.startswith("targets") \
+                        and isinstance(st, (ast.If, ast.Return, ast.Assign, ast.AnnAssign, ast.Expr, ast.AugAssign, ast.Raise, ast.Assert)) \
+                        and exp.target(caller, node.args[0], False, generator=True):
+                    exp.counter += 1
+                    tmp = "collected__inl%d" % exp.counter
+                    var = "item__inl%d" % exp.counter
+                    exp._names.update((tmp, var))
+                    comp = ast.ListComp(elt=ast.Name(id=var, ctx=ast.Load()),
+                                        generators=[ast.comprehension(target=ast.Name(id=var, ctx=ast.Store()), iter=node.args[0], ifs=[], is_async=0)])
+                    asg = ast.copy_location(ast.Assign(targets=[ast.Name(id=tmp, ctx=ast.Store())], value=comp), st)
+                    ast.fix_missing_locations(asg)
+                    hoisted.append(asg)
+                    return ast.copy_location(ast.Name(id=tmp, ctx=ast.Load()), node)
                 r = self._try(node, node, False)
                 if r is not None:
                     return r
